@@ -110,7 +110,7 @@ pub fn run(ctx: &Ctx, ev: &mut Ev) {
     if ctx.want("enc") {
         let mut alpha: Vec<u32> = if th { SCALARS.to_vec() } else { SCALARS_SMALL.to_vec() }; alpha.push(0xD800); alpha.push(0x2603);
         let sp = EncSpace { encs: encoder_families(), alpha, maxlen: if th { 3 } else { 2 }, src16s: vec![false, true], vec_sinks: vec![false], repls: vec![true, false],
-            cap_offsets: vec![vec![0], vec![1], vec![2], vec![5], vec![0, 10]], last_seps: vec![false], stride: 1, fills: vec![0] };
+            cap_offsets: vec![vec![0], vec![1], vec![2], vec![5], vec![0, 10]], last_seps: vec![false], stride: 1, fills: vec![0], per_encoder: true };
         ev.note(format!("enc: {}", sp.describe()));
         enum_enc(ctx, ev, &sp, |case, _ng, ev| check_enc(&mut drv, ev, case, true));
     }
